@@ -40,7 +40,7 @@ func bldEthernetRaw(maxPayload int) protocol.Ethernet {
 	vr.Assume(e.Ethertype != protocol.IPv6_MSG)
 	vr.Assume(e.Ethertype != protocol.ARP_MSG)
 	vr.Assume(e.Ethertype != protocol.VLAN_MSG)
-	e.Data = util.NewBuffer(vr.Bytes("ethpayload", vr.IntRange("ethpaylen", 0, maxPayload)))
+	e.Data = util.NewBuffer(vr.Bytes("ethpayload", swCount("ethpaylen", maxPayload)))
 	return *e
 }
 
@@ -48,6 +48,35 @@ func mpReply(t uint16) *MultipartReply {
 	r := &MultipartReply{Header: NewOfp13Header(), Type: t, Flags: vr.U16("flags")}
 	r.Header.Type = Type_MultiPartReply
 	return r
+}
+
+// fixedShape pins every count / kind choice of the builders below to one rich value (used by the
+// C07 valid-frame families, where the shape must not multiply paths).
+var fixedShape = false
+
+func swCount(name string, max int) int {
+	if fixedShape {
+		return max
+	}
+	return vr.IntRange(name, 0, max)
+}
+
+func buildSwitchMessageFixed(kind int) util.Message {
+	fixedShape = true
+	m := buildSwitchMessage(kind)
+	fixedShape = false
+	return m
+}
+
+func swMatch() *Match {
+	if !fixedShape {
+		return buildMatch(2, 0)
+	}
+	m := NewMatch()
+	m.AddField(*buildField(0))
+	m.AddField(*buildField(1))
+	m.AddField(*buildField(9))
+	return m
 }
 
 func buildSwitchMessage(kind int) util.Message {
@@ -62,14 +91,14 @@ func buildSwitchMessage(kind int) util.Message {
 		e.Header.Type = Type_Error
 		e.Type, e.Code = vr.U16("etype"), vr.U16("ecode")
 		vr.Assume(e.Type != ET_EXPERIMENTER)
-		e.Data = *util.NewBuffer(vr.Bytes("edata", vr.IntRange("edatalen", 0, 8)))
+		e.Data = *util.NewBuffer(vr.Bytes("edata", swCount("edatalen", 8)))
 		e.Header.Length = e.Len()
 		return e
 	case 2:
 		e := NewBundleError()
 		e.Header.Type = Type_Error
 		e.Code = vr.U16("ecode")
-		e.Data = *util.NewBuffer(vr.Bytes("edata", vr.IntRange("edatalen", 0, 8)))
+		e.Data = *util.NewBuffer(vr.Bytes("edata", swCount("edatalen", 8)))
 		e.Header.Length = e.Len()
 		return e
 	case 3:
@@ -80,7 +109,7 @@ func buildSwitchMessage(kind int) util.Message {
 		f := NewFeaturesReply()
 		copy(f.DPID, vr.Bytes("dpid", 8))
 		f.Buffers, f.NumTables, f.AuxilaryId, f.Capabilities, f.Actions = vr.U32("buffers"), vr.U8("ntables"), vr.U8("aux"), vr.U32("caps"), vr.U32("reserved")
-		k := vr.IntRange("nports", 0, 2)
+		k := swCount("nports", 2)
 		for i := 0; i < k; i++ {
 			f.Ports = append(f.Ports, *bldPhyPort())
 		}
@@ -93,7 +122,7 @@ func buildSwitchMessage(kind int) util.Message {
 	case 7:
 		p := NewPacketIn()
 		p.BufferId, p.TotalLen, p.Reason, p.TableId, p.Cookie = vr.U32("buffer"), vr.U16("totlen"), vr.U8("reason"), vr.U8("table"), vr.U64("cookie")
-		p.Match = *buildMatch(2, 0)
+		p.Match = *swMatch()
 		p.Data = bldEthernetRaw(8)
 		p.Header.Length = p.Len()
 		return p
@@ -103,7 +132,7 @@ func buildSwitchMessage(kind int) util.Message {
 		f.Cookie, f.Priority, f.Reason, f.TableId = vr.U64("cookie"), vr.U16("prio"), vr.U8("reason"), vr.U8("table")
 		f.DurationSec, f.DurationNSec, f.IdleTimeout, f.HardTimeout = vr.U32("dsec"), vr.U32("dnsec"), vr.U16("idle"), vr.U16("hard")
 		f.PacketCount, f.ByteCount = vr.U64("pkts"), vr.U64("bytes")
-		f.Match = *buildMatch(2, 0)
+		f.Match = *swMatch()
 		f.Header.Length = f.Len()
 		return f
 	case 9:
@@ -126,15 +155,22 @@ func buildSwitchMessage(kind int) util.Message {
 		return r
 	case 12:
 		r := mpReply(MultipartType_Flow)
-		k := vr.IntRange("nrec", 0, 2)
+		k := swCount("nrec", 2)
 		for i := 0; i < k; i++ {
 			s := NewFlowStats()
 			s.TableId, s.DurationSec, s.DurationNSec, s.Priority = vr.U8("table"), vr.U32("dsec"), vr.U32("dnsec"), vr.U16("prio")
 			s.IdleTimeout, s.HardTimeout, s.Flags, s.Cookie = vr.U16("idle"), vr.U16("hard"), vr.U16("fflags"), vr.U64("cookie")
 			s.PacketCount, s.ByteCount = vr.U64("pkts"), vr.U64("bytes")
-			s.Match = *buildMatch(1, 0)
-			if vr.Bool("instr") {
-				s.Instructions = append(s.Instructions, buildInstr(vr.Choice("ikind", nInstrKinds), 1, 0))
+			if fixedShape {
+				s.Match = *swMatch()
+				ia := NewInstrApplyActions()
+				ia.AddAction(NewActionOutput(vr.U32("port")), false)
+				s.Instructions = append(s.Instructions, NewInstrGotoTable(vr.U8("table")), ia)
+			} else {
+				s.Match = *buildMatch(1, 0)
+				if vr.Bool("instr") {
+					s.Instructions = append(s.Instructions, buildInstr(vr.Choice("ikind", nInstrKinds), 1, 0))
+				}
 			}
 			s.Length = s.Len()
 			r.Body = append(r.Body, s)
@@ -148,7 +184,7 @@ func buildSwitchMessage(kind int) util.Message {
 		return r
 	case 14:
 		r := mpReply(MultipartType_Table)
-		k := vr.IntRange("nrec", 0, 2)
+		k := swCount("nrec", 2)
 		for i := 0; i < k; i++ {
 			s := NewTableStats()
 			s.TableId, s.ActiveCount, s.LookupCount, s.MatchedCount = vr.U8("table"), vr.U32("active"), vr.U64("lookups"), vr.U64("matched")
@@ -159,7 +195,7 @@ func buildSwitchMessage(kind int) util.Message {
 		return r
 	case 15:
 		r := mpReply(MultipartType_Port)
-		k := vr.IntRange("nrec", 0, 2)
+		k := swCount("nrec", 2)
 		for i := 0; i < k; i++ {
 			s := NewPortStats()
 			s.PortNo, s.RxPackets, s.TxPackets, s.RxBytes, s.TxBytes = vr.U16("port"), vr.U64("rxp"), vr.U64("txp"), vr.U64("rxb"), vr.U64("txb")
@@ -170,7 +206,7 @@ func buildSwitchMessage(kind int) util.Message {
 		return r
 	case 16:
 		r := mpReply(MultipartType_Queue)
-		k := vr.IntRange("nrec", 0, 2)
+		k := swCount("nrec", 2)
 		for i := 0; i < k; i++ {
 			s := &QueueStats{PortNo: vr.U16("port"), QueueId: vr.U32("queue"), TxBytes: vr.U64("txb"), TxPackets: vr.U64("txp"), TxErrors: vr.U64("txe")}
 			r.Body = append(r.Body, s)
@@ -179,7 +215,7 @@ func buildSwitchMessage(kind int) util.Message {
 	case 17:
 		v := NewNXTVendorHeader(Type_TlvTableReply)
 		t := &TLVTableReply{MaxSpace: vr.U32("maxspace"), MaxFields: vr.U16("maxfields")}
-		k := vr.IntRange("nmaps", 0, 2)
+		k := swCount("nmaps", 2)
 		for i := 0; i < k; i++ {
 			t.TlvMaps = append(t.TlvMaps, &TLVTableMap{OptClass: vr.U16("class"), OptType: vr.U8("type"), OptLength: vr.U8("len"), Index: vr.U16("index")})
 		}
@@ -188,11 +224,29 @@ func buildSwitchMessage(kind int) util.Message {
 	case 18:
 		return NewBundleControl(&BundleControl{BundleID: vr.U32("bundle"), Type: vr.U16("btype"), Flags: vr.U16("bflags")})
 	case 19:
+		if fixedShape {
+			return swFlowMod()
+		}
 		return buildMessage(7)
 	case 20:
 		return buildMessage(6)
 	case 21:
 		return NewFeaturesRequest()
 	}
+	if fixedShape {
+		return NewBundleAdd(&BundleAdd{BundleID: vr.U32("bundle"), Flags: vr.U16("bflags"), Message: swFlowMod()})
+	}
 	return NewBundleAdd(&BundleAdd{BundleID: vr.U32("bundle"), Flags: vr.U16("bflags"), Message: buildMessage(7)})
+}
+
+func swFlowMod() *FlowMod {
+	f := NewFlowMod()
+	f.Cookie, f.Priority, f.OutPort, f.OutGroup = vr.U64("cookie"), vr.U16("prio"), vr.U32("outport"), vr.U32("outgroup")
+	f.Match = *swMatch()
+	ia := NewInstrApplyActions()
+	ia.AddAction(NewActionOutput(vr.U32("port")), false)
+	ia.AddAction(NewActionSetField(*buildField(4)), false)
+	f.AddInstruction(NewInstrGotoTable(vr.U8("table")))
+	f.AddInstruction(ia)
+	return f
 }
